@@ -10,6 +10,7 @@ import (
 	"testing"
 
 	mocker "github.com/tencent/goom"
+	"github.com/tencent/goom/arg"
 	"github.com/tencent/goom/zzverif/vmon"
 )
 
@@ -73,7 +74,19 @@ func TestC11(t *testing.T) {
 		steadyWant := make([]func(a int) int, len(Steady))
 		for k := range Steady {
 			k := k
-			if k%2 == 0 {
+			if k%4 == 2 {
+				// conditional stub with In clauses: every concurrent caller is judged on its own argument
+				sb.Func(Steady[k]).Return(300000 + k).In(1, 2, 3, 5, 8).Return(400000 + k).When(arg.In(13, 21)).Return(500000 + k)
+				steadyWant[k] = func(a int) int {
+					switch a {
+					case 1, 2, 3, 5, 8:
+						return 400000 + k
+					case 13, 21:
+						return 500000 + k
+					}
+					return 300000 + k
+				}
+			} else if k%2 == 0 {
 				sb.Func(Steady[k]).Return(100000 + k)
 				steadyWant[k] = func(a int) int { return 100000 + k }
 			} else {
@@ -97,6 +110,9 @@ func TestC11(t *testing.T) {
 				for atomic.LoadInt32(&stop) == 0 || n < 2000 {
 					k := rg.Intn(len(Steady))
 					a := rg.Intn(1000)
+					if rg.Bool() {
+						a = rg.Intn(24)
+					}
 					w := atomic.LoadInt64(&writersActive) > 0
 					got := Steady[k](a)
 					if w {
